@@ -32,7 +32,11 @@ def walk_own(body):
 def external_setters(ctx):
     """Attributes that System code stores on contributions: contr.X = ... (derived from cardillo/system.py),
     plus the ones solvers/utilities store.  Returned as a set of names (conditions are ignored: sound direction)."""
+    cached = getattr(ctx, "_ext_setters", None)
+    if cached is not None:
+        return cached
     out = set()
+    ctx._ext_setters = out
     mod = ctx.repo.module(SYS)
     for n in ast.walk(mod.tree):
         tg = []
@@ -172,3 +176,64 @@ def callable_misuse(view: ClassView, body, selfname="self"):
                 if k in ("method", "lambda"):
                     out.append((n, o))
     return out
+
+
+def subsystem_calls(body, recv_names=("subsystem", "subsystem1", "subsystem2", "frame", "rod")):
+    """Calls `<x>.<recv>.<m>(...)` in body -> list of (recv, m, call)."""
+    out = []
+    for n in ast.walk(body):
+        if isinstance(n, ast.Call) and isinstance(n.func, ast.Attribute) and isinstance(n.func.value, ast.Attribute) \
+                and n.func.value.attr in recv_names and isinstance(n.func.value.value, ast.Name):
+            out.append((n.func.value.attr, n.func.attr, n))
+    return out
+
+
+def check_subsystem_protocol(ctx, rule, construct, calls, classes=None, rel=""):
+    """Every (method, call) is provided with a compatible signature by every supported subsystem class."""
+    from . import tables
+    from .core import arity
+    rep = ctx.rep
+    model = ctx.model
+    classes = classes or tables.KINEMATIC_SUBSYSTEMS
+    seen = set()
+    vcache = ctx.__dict__.setdefault("_view_cache", {})
+
+    def views(cname):
+        if cname not in vcache:
+            ci = model.cls(cname)
+            vcache[cname] = [(variant, ClassView(ctx, ci, variant)) for variant in model.variants(ci)]
+        return vcache[cname]
+
+    for (recv, m, call) in calls:
+        key = (m, len(call.args), tuple(sorted(k.arg or "**" for k in call.keywords)))
+        if key in seen:
+            continue
+        seen.add(key)
+        for cname in classes:
+            for variant, view in views(cname):
+                if m in tables.ORIENTATION_METHODS and view.kind("A_IB") is None:
+                    continue  # hasattr(subsystem, "A_IB") idiom: not required from orientation-less subsystems
+                k = view.kind(m)
+                vtag = ",".join(v for _, v in sorted(variant.items()))
+                if k is None:
+                    rep.bad(rule, construct, call, f"supported subsystem class {cname}{'[' + vtag + ']' if vtag else ''} has no `{m}` (AttributeError for this pairing)",
+                            f"{rel}:{call.lineno}")
+                    break
+                if k == "method":
+                    c, fn = view.method(m)
+                    mn, mx, kws, haskw = arity(fn)
+                    npos = len(call.args)
+                    given_kw = [kk.arg for kk in call.keywords if kk.arg]
+                    pos_names = [a.arg for a in fn.args.posonlyargs + fn.args.args][1:]
+                    missing = [p for p in pos_names[npos:mn - 1] if p not in given_kw]
+                    bad_kw = [kk for kk in given_kw if kk not in kws and not haskw]
+                    dup = [kk for kk in given_kw if kk in pos_names[:npos]]
+                    if (mx is not None and npos > mx - 1) or missing or bad_kw or dup:
+                        why = f"unknown keyword {bad_kw}" if bad_kw else (f"missing {missing}" if missing else (f"duplicate {dup}" if dup else "too many positional arguments"))
+                        rep.bad(rule, construct, call, f"call does not match {cname}.{m}({norm_src(fn.args)}): {why}", f"{rel}:{call.lineno}")
+                        break
+            else:
+                continue
+            break
+        else:
+            rep.ok(rule, construct, f"subsystem.{m}({len(call.args)} positional{', ' + ','.join(k.arg or '**' for k in call.keywords) if call.keywords else ''}) provided by {', '.join(classes)}")
